@@ -94,16 +94,45 @@ pub fn value_for(kind: Kind, seed: u32) -> NValue {
     value_for_cfg(kind, seed, 0)
 }
 
+/// A payload seed is a running number (low 24 bits) plus a value class (high bits): 0 ordinary, 1 NaN, 2 +Inf, 3 -Inf,
+/// 4 -0.0, 5 the smallest subnormal, 6 1e300 - for the float kinds that can legally hold such a value.
+pub fn float_gauge_value(seed: u32) -> f64 {
+    match seed >> 24 {
+        1 => f64::NAN,
+        2 => f64::INFINITY,
+        3 => f64::NEG_INFINITY,
+        4 => -0.0,
+        5 => f64::from_bits(1),
+        6 => 1e300,
+        _ => -((seed & 0xFF_FFFF) as f64 + 0.5),
+    }
+}
+
+pub fn float_counter_value(seed: u32) -> f64 {
+    match seed >> 24 {
+        2 => f64::INFINITY,
+        5 => f64::from_bits(1),
+        6 => 1e300,
+        _ => (seed & 0xFF_FFFF) as f64 + 0.25,
+    }
+}
+
+/// Number of 1.0 observations fed to a histogram child (plus one 3.0).
+pub fn hist_ones(seed: u32) -> u64 {
+    ((seed & 0xFF_FFFF) % 23) as u64
+}
+
 pub fn value_for_cfg(kind: Kind, seed: u32, hist_cfg: usize) -> NValue {
-    let s = seed as f64;
+    let s = (seed & 0xFF_FFFF) as f64;
     match kind {
-        Kind::Counter | Kind::CounterVec => NValue::Counter(s + 0.25),
+        Kind::Counter | Kind::CounterVec => NValue::Counter(float_counter_value(seed)),
         Kind::IntCounter | Kind::IntCounterVec => NValue::Counter(s),
-        Kind::Gauge | Kind::GaugeVec | Kind::Pulling => NValue::Gauge(-(s + 0.5)),
+        Kind::Gauge | Kind::GaugeVec | Kind::Pulling => NValue::Gauge(float_gauge_value(seed)),
         Kind::IntGauge | Kind::IntGaugeVec => NValue::Gauge(-s),
         Kind::Histogram | Kind::HistogramVec => {
-            // observations: `seed` times 1.0 and once 3.0
-            let n = seed as u64;
+            // observations: `hist_ones(seed)` times 1.0 and once 3.0
+            let n = hist_ones(seed);
+            let s = n as f64;
             let buckets = adjusted_bounds(HIST_CONFIGS[hist_cfg])
                 .into_iter()
                 .map(|b| (b, (if 1.0 <= b { n } else { 0 }) + (if 3.0 <= b { 1 } else { 0 })))
@@ -166,7 +195,8 @@ pub fn gen_scenario(src: &mut Src, allow_mixed: bool) -> Scenario {
                     }
                     seen.push(t.clone());
                     seed += 1;
-                    children.push((t, seed));
+                    let class = if src.chance(20) { 1 + src.below(6) as u32 } else { 0 };
+                    children.push((t, seed | (class << 24)));
                 }
                 if bulk > 0 {
                     let have: std::collections::HashSet<Vec<String>> = seen.iter().cloned().collect();
@@ -181,7 +211,8 @@ pub fn gen_scenario(src: &mut Src, allow_mixed: bool) -> Scenario {
                 }
             } else {
                 seed += 1;
-                children.push((vec![], seed));
+                let class = if src.chance(20) { 1 + src.below(6) as u32 } else { 0 };
+                children.push((vec![], seed | (class << 24)));
             }
             let hist_cfg = if matches!(k, Kind::Histogram | Kind::HistogramVec) { src.below(HIST_CONFIGS.len()) } else { 0 };
             colls.push(CollSpec { kind: k, name: name.to_string(), help: help.clone(), consts, vars: vnames.clone(), children, hist_cfg });
@@ -215,7 +246,7 @@ fn opts_of(c: &CollSpec) -> Opts {
 }
 
 fn hist_feed(h: &Histogram, seed: u32) {
-    for _ in 0..seed {
+    for _ in 0..hist_ones(seed) {
         h.observe(1.0);
     }
     h.observe(3.0);
@@ -226,22 +257,22 @@ pub fn build_collector(c: &CollSpec) -> Box<dyn Collector> {
     match c.kind {
         Kind::Counter => {
             let m = Counter::with_opts(opts_of(c)).unwrap();
-            m.inc_by(c.children[0].1 as f64 + 0.25);
+            m.inc_by(float_counter_value(c.children[0].1));
             Box::new(m)
         }
         Kind::IntCounter => {
             let m = IntCounter::with_opts(opts_of(c)).unwrap();
-            m.inc_by(c.children[0].1 as u64);
+            m.inc_by((c.children[0].1 & 0xFF_FFFF) as u64);
             Box::new(m)
         }
         Kind::Gauge => {
             let m = Gauge::with_opts(opts_of(c)).unwrap();
-            m.set(-(c.children[0].1 as f64 + 0.5));
+            m.set(float_gauge_value(c.children[0].1));
             Box::new(m)
         }
         Kind::IntGauge => {
             let m = IntGauge::with_opts(opts_of(c)).unwrap();
-            m.set(-(c.children[0].1 as i64));
+            m.set(-((c.children[0].1 & 0xFF_FFFF) as i64));
             Box::new(m)
         }
         Kind::Histogram => {
@@ -250,34 +281,34 @@ pub fn build_collector(c: &CollSpec) -> Box<dyn Collector> {
             Box::new(m)
         }
         Kind::Pulling => {
-            let v = -(c.children[0].1 as f64 + 0.5);
+            let v = float_gauge_value(c.children[0].1);
             Box::new(PullingGauge::new(c.name.clone(), c.help.clone(), Box::new(move || v)).unwrap())
         }
         Kind::CounterVec => {
             let m = CounterVec::new(opts_of(c), &names).unwrap();
             for (t, s) in &c.children {
-                m.with_label_values(t).inc_by(*s as f64 + 0.25);
+                m.with_label_values(t).inc_by(float_counter_value(*s));
             }
             Box::new(m)
         }
         Kind::IntCounterVec => {
             let m = IntCounterVec::new(opts_of(c), &names).unwrap();
             for (t, s) in &c.children {
-                m.with_label_values(t).inc_by(*s as u64);
+                m.with_label_values(t).inc_by((*s & 0xFF_FFFF) as u64);
             }
             Box::new(m)
         }
         Kind::GaugeVec => {
             let m = GaugeVec::new(opts_of(c), &names).unwrap();
             for (t, s) in &c.children {
-                m.with_label_values(t).set(-(*s as f64 + 0.5));
+                m.with_label_values(t).set(float_gauge_value(*s));
             }
             Box::new(m)
         }
         Kind::IntGaugeVec => {
             let m = IntGaugeVec::new(opts_of(c), &names).unwrap();
             for (t, s) in &c.children {
-                m.with_label_values(t).set(-(*s as i64));
+                m.with_label_values(t).set(-((*s & 0xFF_FFFF) as i64));
             }
             Box::new(m)
         }
